@@ -46,11 +46,10 @@ Definition parse_decimal_be8 (s : bytes) : outcome bytes :=
   | None => Err (EStd 1 [s])
   end.
 
-(** func LeftPadHex(s string, totalLen int) string *)
+(** func LeftPadHex(s string, totalLen int) string — a width below 1 gives the empty string *)
 Definition left_pad_hex (s : bytes) (total : Z) : outcome bytes :=
-  if (total <=? zlen s)%Z then
-    (if (total <? 0)%Z then Panic                               (* s[len(s)-totalLen:] out of range *)
-     else Ok (skipn (length s - Z.to_nat total) s))
+  if (total <=? 0)%Z then Ok []
+  else if (total <=? zlen s)%Z then Ok (skipn (length s - Z.to_nat total) s)
   else Ok (repeat 48 (Z.to_nat total - length s) ++ s).
 
 (** encoding/hex *)
